@@ -84,7 +84,7 @@ def unicode_gaps(gaps, rnd):
 
 def jobs(tier, seed, report):
     rnd = random.Random(seed)
-    report.bounds = {'arithmetic': '2..3 operands (thorough: ..5) with symbolic operators, every parenthesisation of nesting <= 2 (4+ operands: seeded sample)',
+    report.bounds = {'arithmetic': '2..3 operands (thorough: ..4; five operands only as the three restricted chains below) with symbolic operators, every parenthesisation of nesting <= 2 (4+ operands: seeded sample)',
                      'blank_layouts': 'per template the 5 uniform layouts (single blanks, none where permitted, doubled, leading/trailing) + seeded one-gap variations; blank characters symbolic over space/tab' + ('; Unicode blanks U+00A0/U+2003 in a concrete variant' if tier != 'quick' else ''),
                      'casts': 'two quantities in m/cm/km/mm combined by symbolic + or -, then `to` a unit; chained casts', 'calls': 'round/floor/ceil with 1-2 arguments holding 2..3-operand expressions, followed by a further operator',
                      'literal_values': 'unbounded symbolic rationals; exponents integers in [-2,2]'}
@@ -94,7 +94,7 @@ def jobs(tier, seed, report):
     report.required_witnesses = ['tree-matches-reference', 'value-matches-reference', 'tight-layout', 'wide-layout', 'leading-trailing-blanks', 'cast-binds-loosest', 'call-argument-grouping', 'parenthesised-right-operand', 'three-precedence-levels']
     js = []
     nlay = 8 if tier == 'quick' else 14
-    for n in ([2, 3] if tier == 'quick' else [2, 3, 4, 5]):
+    for n in ([2, 3] if tier == 'quick' else [2, 3, 4]):
         shapes = c01.paren_sets(n)
         if n >= 4: rnd.shuffle(shapes); shapes = shapes[:6 if n == 4 else 3]
         for si, ps in enumerate(shapes):
